@@ -637,6 +637,31 @@ fn sweep<'a, 'e, T: IteTable<'a, BddPtr<'a>> + Default>(
         }
         s.recheck_pool();
     }
+    // every ordered pair of conditioning / quantification operations on the same function, back to
+    // back (the fixed order above never conditions on two different variables with the same
+    // polarity in a row; per-call memos that survive a call are only visible to such a pair)
+    if !s.stop {
+        let fstep = if total <= 1024 { 1 } else { 8 };
+        'p: for &i in perm.iter().step_by(fstep) {
+            let x = i as TT;
+            let mut ops: Vec<Op> = Vec::new();
+            for v in 0..n {
+                ops.push(Op::Cond(x, v, true));
+                ops.push(Op::Cond(x, v, false));
+                ops.push(Op::Exists(x, v));
+            }
+            for o1 in ops.iter() {
+                for o2 in ops.iter() {
+                    s.issue(o1.clone());
+                    s.issue(o2.clone());
+                }
+                if s.stop {
+                    break 'p;
+                }
+            }
+        }
+        s.recheck_pool();
+    }
     // compose: all f x v x g
     if !s.stop {
         'c: for &i in perm.iter() {
